@@ -216,12 +216,17 @@ def run_driver(lines: list[str], shards: int | None = None) -> list[str]:
             fin = Path(td) / f"in{i}"
             fin.write_text("\n".join(chunk) + "\n")
             fh = open(fin)
-            p = subprocess.Popen([str(DRIVER)], stdin=fh, stdout=subprocess.PIPE, text=True)
-            procs.append((p, fh, len(chunk)))
+            fout = Path(td) / f"out{i}"
+            oh = open(fout, "w")
+            # answers go to a file, not a pipe: with several shards a full pipe would stall all but the one being read
+            p = subprocess.Popen([str(DRIVER)], stdin=fh, stdout=oh, text=True)
+            procs.append((p, fh, len(chunk), oh, fout))
         out: list[str] = []
-        for p, fh, n in procs:
-            data, _ = p.communicate()
+        for p, fh, n, oh, fout in procs:
+            p.wait()
             fh.close()
+            oh.close()
+            data = fout.read_text()
             got = data.split("\n")
             if got and got[-1] == "":
                 got.pop()
